@@ -11,6 +11,7 @@ import KafkaVerif.Lemmas.GroupRunStruct
 import KafkaVerif.Lemmas.TransportLife
 import KafkaVerif.Gen.CloseFacts
 import KafkaVerif.Model.FetcherLife
+import KafkaVerif.Lemmas.GroupConns
 
 namespace KV.C09
 open KV.WriterClose
@@ -707,5 +708,35 @@ theorem fetcher_exit_closes_conn (s : FetcherLife.State) (hr : FetcherLife.Reach
 
 example : (FetcherLife.run {} [.top 0, .init true, .iter, .msg, .read .cont, .ctxCancel, .iter, .cancel]).map
     (fun s => (s.pc, s.connOpen)) = some (.exited, false) := by decide
+
+end KV.C09
+
+/-! ## Coordinator connections of ConsumerGroup.run (Model/GroupConns.lean over the group builder's GroupRun) -/
+namespace KV.C09
+open KV.GroupConns
+
+/-- **group_connections_accounted** — in every reachable state of `run` with its dialer journal: the connections
+journalled as opened, plus successful connects not yet journalled, equal the connections journalled as closed, plus
+closes the code has performed but the journal has not shown yet, plus the connections held at the current program
+point (bootstrap connection inside `coordinator()`, coordinator connection of `nextGeneration` / `leaveGroup`). -/
+theorem group_connections_accounted (c : Group.Cfg) (cs : CS) (h : ReachableC c cs) :
+    cs.opened + cs.owedOpen = cs.closed + cs.owedClose + held cs.g.pc :=
+  (k_reachable c cs h).acct
+
+/-- **group_connections_closed_at_exit** — once `run` has returned (the only state in which `ConsumerGroup.Close`
+returns) every coordinator connection it ever opened has been closed, on every path — LeaveGroup answered, rejected
+or failed, the coordinator lookup failed, join / sync / offset-fetch errors, rebalances. -/
+theorem group_connections_closed_at_exit (c : Group.Cfg) (cs : CS) (h : ReachableC c cs) (hx : cs.g.pc = .exited) :
+    cs.opened = cs.closed ∧ cs.owedOpen = 0 ∧ cs.owedClose = 0 := by
+  have k := k_reachable c cs h
+  obtain ⟨h1, h2⟩ := k.gone hx
+  have := k.acct
+  simp [hx, held, bootPC, connPC, b2n, h1, h2] at this
+  exact ⟨this, h1, h2⟩
+
+example : (runC ⟨0, true⟩ {} [.ev (.connectRes none), .copen, .ev (.findRes none), .ev (.connectRes none), .copen, .cclose,
+    .ev (.joinErr "" .kafka), .cclose, .ev (.nextGenRet "" (some .kafka)), .ev (.leave ""), .ev .closeCall,
+    .ev (.errDeliver .kafka false), .ev (.leave ""), .ev .runExit]).map (fun s => (s.opened, s.closed)) = some (2, 2) := by
+  decide
 
 end KV.C09
